@@ -221,8 +221,34 @@ var signFlags map[string]string
 // drawFlags picks signer flags whose effect depends on how the stream is consumed.
 func drawFlags(t *rapid.T, format string) map[string]string {
 	signFlags = nil
-	if format == "pe" && rapid.Bool().Draw(t, "page_hashes") {
-		signFlags = map[string]string{"page-hashes": "true"}
+	// boolean signer options, given explicitly in either state (an option that defaults to
+	// true must be switchable off on the server too)
+	var names []string
+	switch format {
+	case "pe":
+		names = []string{"page-hashes"}
+	case "macho":
+		names = []string{"hardened-runtime"}
+	case "msi":
+		names = []string{"no-extended-sig"}
+	case "jar":
+		names = []string{"sections-only", "inline-signature"}
+	case "vsix":
+		names = []string{"detach-certs"}
+	}
+	for _, n := range names {
+		switch rapid.IntRange(0, 2).Draw(t, "flag_"+n) {
+		case 1:
+			if signFlags == nil {
+				signFlags = map[string]string{}
+			}
+			signFlags[n] = "true"
+		case 2:
+			if signFlags == nil {
+				signFlags = map[string]string{}
+			}
+			signFlags[n] = "false"
+		}
 	}
 	return signFlags
 }
